@@ -4,6 +4,7 @@ package interp
 // native implementation (bodies) used for replay; here the calls are intercepted by name.
 
 import (
+	"go/token"
 	"encoding/hex"
 	"fmt"
 	"go/types"
@@ -191,6 +192,12 @@ func init() {
 		},
 		// SymbolicClock(): from here on time.Now() returns an arbitrary non-decreasing instant (environment stub)
 		"ClockTick": func(fr *frame, args []value) value { return nil },
+		// Cost(f): runs f and returns the number of SSA instructions it took on this path (natively: elapsed time / 50 ns)
+		"Cost": func(fr *frame, args []value) value {
+			before := fr.i.x.instrs
+			call(fr.i, fr, token.NoPos, args[0], nil)
+			return int(fr.i.x.instrs - before)
+		},
 		"SymbolicClock": func(fr *frame, args []value) value {
 			fr.i.x.symClock = true
 			return nil
